@@ -29,6 +29,8 @@ type World struct {
 	verif      string
 	funcs      map[string]*ssa.Function
 	loadS      float64
+	inlineOK   map[*ssa.Function]bool
+	renamed    map[string]map[string]string // contract key -> recorded name -> current name (see names.go)
 }
 
 func (w *World) typeID(t types.Type) int {
@@ -219,6 +221,9 @@ func loadWorld(repo, verif string, pkgDirs []string) (*World, error) {
 		}
 	}
 	w.indexFunctions()
+	if os.Getenv("GOVC_NO_ALIASES") == "" {
+		w.applyNameAliases()
+	}
 	return w, nil
 }
 
